@@ -7,6 +7,7 @@ import (
 	"strings"
 	"time"
 
+	"github.com/lidofinance/dc4bc/client/types"
 	"github.com/lidofinance/dc4bc/fsm/types/requests"
 	"github.com/lidofinance/dc4bc/storage"
 
@@ -325,6 +326,42 @@ func runC10(c *Ctx, n, t int, seed uint64) {
 						if pd := protectedDiff(before, after, rid); len(pd) > 0 {
 							c.Violate("C10/opening-proposal-under-lookalike-round-id-changed-existing-round", fmt.Sprintf("an opening proposal (%s) posted under round id %q changed %v on %s (round %s was in %s)", []string{"the genuine one re-posted", "a stranger's, with her own keys"}[fi], rid, pd, nd.Name, trunc(g.DkgRoundID, 8), stateName), baseWit(map[string]interface{}{"round_id": rid, "forged_keys": fi == 1}))
 						}
+					}
+				}
+			}
+			// (b4') an (unauthenticated) reinitialisation message that names THIS round, which the node already
+			// holds, registers a stranger's key for every participant and carries g unsigned in its embedded log:
+			// nothing recorded for any participant of the round may change
+			{
+				_, spub := fakeKey("c10-stranger", 0), fakeKey("c10-stranger", 1)[:32]
+				unsigned := *g
+				unsigned.Signature = nil
+				re := types.ReDKG{DKGID: g.DkgRoundID, Threshold: t, Messages: []storage.Message{unsigned}}
+				for _, pn := range w.Nodes {
+					re.Participants = append(re.Participants, types.Participant{Name: pn.Name, NewCommPubKey: spub, OldCommPubKey: pn.KeyPair.Pub, DKGPubKey: fakeKey("dkg", pn.Idx)})
+				}
+				bz, _ := json.Marshal(re)
+				wrap := storage.Message{ID: "c10-reinit-live", DkgRoundID: g.DkgRoundID, Event: EvReinit, Data: bz, SenderAddr: "stranger", Signature: []byte("none")}
+				nd.Mem.Restore(m.Snaps[v])
+				before := m.Snaps[v]
+				var pan interface{}
+				func() {
+					defer func() { pan = recover() }()
+					_ = nd.Svc.ProcessMessage(wrap)
+				}()
+				after := nd.Mem.Snapshot()
+				w.Board.Truncate(len(all))
+				c.Eval(1)
+				c.Distinct(fmt.Sprintf("reinit-naming-the-live-round|%s|%s", g.Event, stateName))
+				c.Add("reinit_messages_naming_a_round_the_node_holds", 1)
+				if pan != nil {
+					c.Add("panics_seen_(judged_by_C18)", 1)
+				} else if pd := protectedDiff(before, after, ""); len(pd) > 0 {
+					c.Violate("C10/reinit-message-over-a-live-round-changed-it", fmt.Sprintf("an unauthenticated reinit_dkg message naming round %s (which %s holds, in %s), carrying %s's %s unsigned, changed %v", trunc(g.DkgRoundID, 8), nd.Name, stateName, g.SenderAddr, g.Event, pd), baseWit(map[string]interface{}{"embedded": g.Event}))
+				}
+				if chk, ok := nd.Svc.(interface{ GetSkipCommKeysVerification() bool }); ok && chk.GetSkipCommKeysVerification() {
+					if sk, ok := nd.Svc.(interface{ SetSkipCommKeysVerification(bool) }); ok {
+						sk.SetSkipCommKeysVerification(false) // judged by C09; keep this exploration meaningful
 					}
 				}
 			}
